@@ -5,6 +5,7 @@ from geoh5py.ui_json.validation import InputValidation
 from geoh5py.ui_json.enforcers import EnforcerPool, TypeEnforcer, ValueEnforcer
 from geoh5py.ui_json.parameters import (Parameter, StringParameter, IntegerParameter, BoolParameter,
                                          ValueRestrictedParameter, TypeRestrictedParameter)
+from geoh5py.ui_json.forms import StringFormParameter, BoolFormParameter, IntegerFormParameter
 from geoh5py.shared.validators import TypeValidator, ValueValidator, OptionalValidator, RequiredValidator, ShapeValidator
 from geoh5py.shared.exceptions import BaseValidationError
 
@@ -27,18 +28,20 @@ def _accepts(fn, *a):
 
 
 
-def requires_value_matches_reference(opt: bool, en: bool, has_opt: bool, has_dep: bool, dep_opt: bool, dep_en: bool,
+def requires_value_matches_reference(opt: bool, en: bool, has_opt: bool, has_dep: bool, dep_opt_state: int, dep_en: bool,
                                      dep_val: bool, dtype_enabled: bool, has_group: bool, gopt: bool, gen: bool) -> bool:
     """
+    pre: 0 <= dep_opt_state < 3
     post: _
     """
+    dep_opt = dep_opt_state == 2          # 0: no 'optional' member, 1: explicit False, 2: True
     form = {"label": "a", "value": 1}
     if has_opt:
         form["optional"] = opt
         form["enabled"] = en
     dep = {"label": "d", "value": dep_val}
-    if dep_opt:
-        dep["optional"] = True
+    if dep_opt_state:
+        dep["optional"] = dep_opt
         dep["enabled"] = dep_en
     if has_dep:
         form["dependency"] = "d"
@@ -66,18 +69,20 @@ def requires_value_matches_reference(opt: bool, en: bool, has_opt: bool, has_dep
         exp = True
     return bool(got) == bool(exp)
 
-def requires_value_matches_reference__reach(opt: bool, en: bool, has_opt: bool, has_dep: bool, dep_opt: bool, dep_en: bool,
+def requires_value_matches_reference__reach(opt: bool, en: bool, has_opt: bool, has_dep: bool, dep_opt_state: int, dep_en: bool,
                                      dep_val: bool, dtype_enabled: bool, has_group: bool, gopt: bool, gen: bool) -> bool:
     """
+    pre: 0 <= dep_opt_state < 3
     post: False
     """
+    dep_opt = dep_opt_state == 2          # 0: no 'optional' member, 1: explicit False, 2: True
     form = {"label": "a", "value": 1}
     if has_opt:
         form["optional"] = opt
         form["enabled"] = en
     dep = {"label": "d", "value": dep_val}
-    if dep_opt:
-        dep["optional"] = True
+    if dep_opt_state:
+        dep["optional"] = dep_opt
         dep["enabled"] = dep_en
     if has_dep:
         form["dependency"] = "d"
@@ -374,6 +379,168 @@ def parameter_restricted_stateless_and_rejection_keeps_value__reach(i0: int, i1:
         return False                      # a rejected assignment changed the stored value
     fresh = mk()
     return assign(p, v2) == assign(fresh, v2)
+
+
+
+def form_string_member_rejection_leaves_form_unchanged(mi: int, i1: int, i2: int) -> bool:
+    """
+    pre: 0 <= mi < 6 and 0 <= i1 < 8 and i2 == i1
+    post: _
+    """
+    kind = 0
+    member = ["optional", "enabled", "group", "dependency", "tooltip", "main"][mi]
+    mk = [lambda: StringFormParameter("p", value="x", label="l"), lambda: BoolFormParameter("p", value=True, label="l"),
+          lambda: IntegerFormParameter("p", value=1, label="l")][kind]
+    v1, v2 = ALPHA[i1], ALPHA[i2]
+    def assign(f, v):
+        try:
+            setattr(f, member, v)
+            return True
+        except BaseValidationError:
+            return False
+    used = mk()
+    before_form, before_active = dict(used.form()), list(used.active)
+    ok1 = assign(used, v1)
+    if not ok1 and (dict(used.form()) != before_form or list(used.active) != before_active):
+        return False                      # a rejected member assignment changed the form
+    if ok1 and not (member in used.active and used.form()[member] == v1):
+        return False
+    fresh = mk()
+    return assign(used, v2) == assign(fresh, v2)
+
+def form_string_member_rejection_leaves_form_unchanged__reach(mi: int, i1: int, i2: int) -> bool:
+    """
+    pre: 0 <= mi < 6 and 0 <= i1 < 8 and i2 == i1
+    post: False
+    """
+    kind = 0
+    member = ["optional", "enabled", "group", "dependency", "tooltip", "main"][mi]
+    mk = [lambda: StringFormParameter("p", value="x", label="l"), lambda: BoolFormParameter("p", value=True, label="l"),
+          lambda: IntegerFormParameter("p", value=1, label="l")][kind]
+    v1, v2 = ALPHA[i1], ALPHA[i2]
+    def assign(f, v):
+        try:
+            setattr(f, member, v)
+            return True
+        except BaseValidationError:
+            return False
+    used = mk()
+    before_form, before_active = dict(used.form()), list(used.active)
+    ok1 = assign(used, v1)
+    if not ok1 and (dict(used.form()) != before_form or list(used.active) != before_active):
+        return False                      # a rejected member assignment changed the form
+    if ok1 and not (member in used.active and used.form()[member] == v1):
+        return False
+    fresh = mk()
+    return assign(used, v2) == assign(fresh, v2)
+
+
+
+def form_bool_member_rejection_leaves_form_unchanged(mi: int, i1: int, i2: int) -> bool:
+    """
+    pre: 0 <= mi < 6 and 0 <= i1 < 8 and i2 == i1
+    post: _
+    """
+    kind = 1
+    member = ["optional", "enabled", "group", "dependency", "tooltip", "main"][mi]
+    mk = [lambda: StringFormParameter("p", value="x", label="l"), lambda: BoolFormParameter("p", value=True, label="l"),
+          lambda: IntegerFormParameter("p", value=1, label="l")][kind]
+    v1, v2 = ALPHA[i1], ALPHA[i2]
+    def assign(f, v):
+        try:
+            setattr(f, member, v)
+            return True
+        except BaseValidationError:
+            return False
+    used = mk()
+    before_form, before_active = dict(used.form()), list(used.active)
+    ok1 = assign(used, v1)
+    if not ok1 and (dict(used.form()) != before_form or list(used.active) != before_active):
+        return False                      # a rejected member assignment changed the form
+    if ok1 and not (member in used.active and used.form()[member] == v1):
+        return False
+    fresh = mk()
+    return assign(used, v2) == assign(fresh, v2)
+
+def form_bool_member_rejection_leaves_form_unchanged__reach(mi: int, i1: int, i2: int) -> bool:
+    """
+    pre: 0 <= mi < 6 and 0 <= i1 < 8 and i2 == i1
+    post: False
+    """
+    kind = 1
+    member = ["optional", "enabled", "group", "dependency", "tooltip", "main"][mi]
+    mk = [lambda: StringFormParameter("p", value="x", label="l"), lambda: BoolFormParameter("p", value=True, label="l"),
+          lambda: IntegerFormParameter("p", value=1, label="l")][kind]
+    v1, v2 = ALPHA[i1], ALPHA[i2]
+    def assign(f, v):
+        try:
+            setattr(f, member, v)
+            return True
+        except BaseValidationError:
+            return False
+    used = mk()
+    before_form, before_active = dict(used.form()), list(used.active)
+    ok1 = assign(used, v1)
+    if not ok1 and (dict(used.form()) != before_form or list(used.active) != before_active):
+        return False                      # a rejected member assignment changed the form
+    if ok1 and not (member in used.active and used.form()[member] == v1):
+        return False
+    fresh = mk()
+    return assign(used, v2) == assign(fresh, v2)
+
+
+
+def form_integer_member_rejection_leaves_form_unchanged(mi: int, i1: int, i2: int) -> bool:
+    """
+    pre: 0 <= mi < 6 and 0 <= i1 < 8 and i2 == i1
+    post: _
+    """
+    kind = 2
+    member = ["optional", "enabled", "group", "dependency", "tooltip", "main"][mi]
+    mk = [lambda: StringFormParameter("p", value="x", label="l"), lambda: BoolFormParameter("p", value=True, label="l"),
+          lambda: IntegerFormParameter("p", value=1, label="l")][kind]
+    v1, v2 = ALPHA[i1], ALPHA[i2]
+    def assign(f, v):
+        try:
+            setattr(f, member, v)
+            return True
+        except BaseValidationError:
+            return False
+    used = mk()
+    before_form, before_active = dict(used.form()), list(used.active)
+    ok1 = assign(used, v1)
+    if not ok1 and (dict(used.form()) != before_form or list(used.active) != before_active):
+        return False                      # a rejected member assignment changed the form
+    if ok1 and not (member in used.active and used.form()[member] == v1):
+        return False
+    fresh = mk()
+    return assign(used, v2) == assign(fresh, v2)
+
+def form_integer_member_rejection_leaves_form_unchanged__reach(mi: int, i1: int, i2: int) -> bool:
+    """
+    pre: 0 <= mi < 6 and 0 <= i1 < 8 and i2 == i1
+    post: False
+    """
+    kind = 2
+    member = ["optional", "enabled", "group", "dependency", "tooltip", "main"][mi]
+    mk = [lambda: StringFormParameter("p", value="x", label="l"), lambda: BoolFormParameter("p", value=True, label="l"),
+          lambda: IntegerFormParameter("p", value=1, label="l")][kind]
+    v1, v2 = ALPHA[i1], ALPHA[i2]
+    def assign(f, v):
+        try:
+            setattr(f, member, v)
+            return True
+        except BaseValidationError:
+            return False
+    used = mk()
+    before_form, before_active = dict(used.form()), list(used.active)
+    ok1 = assign(used, v1)
+    if not ok1 and (dict(used.form()) != before_form or list(used.active) != before_active):
+        return False                      # a rejected member assignment changed the form
+    if ok1 and not (member in used.active and used.form()[member] == v1):
+        return False
+    fresh = mk()
+    return assign(used, v2) == assign(fresh, v2)
 
 
 
